@@ -34,3 +34,12 @@ claim('C14', 'differential bounded symbolic execution: real get_unified_diff_hun
       'on every sequence of 0..2 (quick) / 0..3 (thorough) symbolic template lines incl. the empty list.',
       BASE_NOTE + ' Reference parser /verif/ref/hunks.py (validated against the repository test inputs each run).',
       'DESIGN.md section 4, C14; Appendix A')
+
+claim('C01', 'bounded symbolic execution of the real DiffXWriter followed by the real DiffXReader on the produced symbolic bytes (SX engine, z3 QF_BV), no reference model on the path',
+      'Real writer calls into a model stream, then the real reader over the produced bytes: one content section per '
+      'run is fully symbolic (preamble text 1..3 code points quick / 1..4 thorough incl. BOM code points, NUL, CR/LF, '
+      'surrogates; diff 1..4 / 1..5 bytes), for every own/inherited encoding of the catalogue, indent, line_endings, '
+      'mimetype / diff type; plus container histories (up to 4 / 6 containers each declaring an encoding or not) with '
+      'symbolic probe preambles. z3 decides record-by-record equality with norm().',
+      BASE_NOTE + ' Metadata is concrete (catalogue); longer histories by composition with C02/C03/C04.',
+      'DESIGN.md section 4, C01')
